@@ -6,7 +6,9 @@ mod ops_edit;
 mod ops_order;
 mod ops_path;
 mod ops_select;
+mod ops_serde;
 mod ops_text;
+mod ops_tj;
 mod props;
 mod rng;
 mod wire;
